@@ -192,6 +192,8 @@ func (e *Eng) specType(name string) (types.Type, string) {
 		return nil, "BSeq"
 	case "ref":
 		return nil, "Int"
+	case "intmap":
+		return nil, "(Array Int Int)"
 	case "real":
 		return types.Typ[types.Float64], "Real"
 	}
@@ -533,6 +535,9 @@ func (e *Eng) selectField(base *Val, name string, cur *State) *Val {
 
 func (e *Eng) indexVal(base, idx *Val, cur *State) *Val {
 	if base.Typ == nil {
+		if base.Sort == "(Array Int Int)" {
+			return ival(sel(base.T, idx.T))
+		}
 		panic("index on spec value")
 	}
 	switch u := types.Unalias(base.Typ).Underlying().(type) {
@@ -640,7 +645,22 @@ func (e *Eng) evalCall(n *ECall, env *Env, cur, old *State) *Val {
 		return bval("false")
 	case "fresh":
 		a := e.eval(n.Args[0], env, cur, old)
+		if a.sortName(e) == "Slice" {
+			return bval(sx(">=", sx("s_arr", a.T), e.get(old, frRegion, "Int")))
+		}
 		return bval(sx(">=", a.T, e.get(old, frRegion, "Int")))
+	case "freshOnly":
+		// freshOnly("elems []byte"): every location of the region that existed at the old state is unchanged
+		pat := n.Args[0].(*EStr).V
+		var cs []string
+		for _, r := range e.resolveRegionPattern(pat) {
+			srt := e.regionSort[r]
+			cs = append(cs, fmt.Sprintf("(forall ((p Int)) (! (=> (< p %s) (= (select %s p) (select %s p))) :pattern ((select %s p))))", e.get(old, frRegion, "Int"), e.get(cur, r, srt), e.get(old, r, srt), e.get(cur, r, srt)))
+		}
+		return bval(and(cs...))
+	case "upd":
+		as := args()
+		return &Val{T: sto(as[0].T, as[1].T, as[2].T), Sort: "(Array Int Int)", KnownLen: -1}
 	case "allocated":
 		a := e.eval(n.Args[0], env, cur, old)
 		return bval(and(sx("<", "0", a.T), sx("<", a.T, e.get(cur, frRegion, "Int"))))
